@@ -90,6 +90,10 @@ def _gen_index_case(ch: core.Chooser) -> dict:
     if ch.chance(0.2):
         case["abort_first"] = ch.below(100000)
     c2 = ch.sub("more")
+    if c2.sub("neg").chance(0.1):
+        # a negative lower bound (documented as clipped at zero): nothing below zero exists, nothing above is lost
+        case["start"] = [-c2.sub("neg").between(1, 3) for _ in range(dims)] if isinstance(case["start"], list) else -c2.sub("neg").between(1, 3)
+        case.pop("bound_dtype", None)
     if c2.sub("nps").chance(0.15):
         case["np_scalars"] = True  # flags, dimension count and norm arrive as numpy scalars (numpy.bool_, numpy.int64, numpy.float64)
     if c2.chance(0.1):
